@@ -33,17 +33,30 @@ fn fail(ctx: &mut Ctx, sig: &str, f: &Forest, prog: Id, env: Id, flags: ClvmFlag
 }
 
 pub fn check(ctx: &mut Ctx, r: &mut Rng, f: &Forest, prog: Id, env: Id, flags: ClvmFlags) {
+    check_with(ctx, r, f, prog, env, flags, false)
+}
+
+/// `straight_line`: the program is known to terminate (no recursion), so it is probed at the largest
+/// budget there is instead of the finite stand-in, which lets costs up to 2^64-1 through
+pub fn check_with(ctx: &mut Ctx, r: &mut Rng, f: &Forest, prog: Id, env: Id, flags: ClvmFlags, straight_line: bool) {
     let plan = r.u64();
     // first at a large finite budget (random programs may not terminate), then at a true 0
-    let (probe, _) = run_at(f, prog, env, flags, crate::outcome::UNLIMITED, plan);
-    if matches!(&probe, Res::Err { variant, .. } if variant == "CostExceeded") {
+    let probe_budget = if straight_line { u64::MAX } else { crate::outcome::UNLIMITED };
+    let (probe, _) = run_at(f, prog, env, flags, probe_budget, plan);
+    if !straight_line && matches!(&probe, Res::Err { variant, .. } if variant == "CostExceeded") {
         ctx.count("skipped_more_expensive_than_probe_budget");
         return;
     }
     let (base, exempt0) = run_at(f, prog, env, flags, 0, plan);
     ctx.eval();
     if base != probe {
-        fail(ctx, "budget-0-not-unlimited", f, prog, env, flags, json!({"at_0": base.to_json(), "at_5e7": probe.to_json()}));
+        fail(ctx, "budget-0-not-unlimited", f, prog, env, flags,
+             json!({"at_0": base.to_json(), "probe_budget": probe_budget, "at_probe_budget": probe.to_json()}));
+    }
+    if let Res::Ok { cost, .. } = &base
+        && *cost > 1 << 62
+    {
+        ctx.count("cost_above_2^62");
     }
     ctx.count(&format!("at_unlimited_{}", base.variant()));
     let mut budgets_run = 1u64;
@@ -205,6 +218,19 @@ fn directed(f: &mut Forest) -> Vec<(Id, Id, ClvmFlags)> {
         "(softfork (q . 3000) (q . 1) (q . (keccak256 (q . 1) (q . 2))) (q . ()))",
         "(sha256tree (q . ((1 . 2) 3 4 $big)))",
         "(keccak256 (q . $big) (q . $big))",
+        // unknown extensions charge their declared cost: the only way to costs near 2^63 and 2^64
+        "(softfork (q . 0x4000000000000000) (q . 9) (q . (x)) (q . ()))",
+        "(softfork (q . 0x7fffffffffffff00) (q . 9) (q . (x)) (q . ()))",
+        "(softfork (q . 0x7fffffffffffffff) (q . 9) (q . (x)) (q . ()))",
+        "(softfork (q . 0x008000000000000000) (q . 9) (q . (x)) (q . ()))",
+        "(softfork (q . 0x008000000000001000) (q . 77) (q . (x)) (q . ()))",
+        "(softfork (q . 0x00c000000000000000) (q . 9) (q . (x)) (q . ()))",
+        "(softfork (q . 0x00fffffffffffff000) (q . 9) (q . (x)) (q . ()))",
+        "(softfork (q . 0x00ffffffffffffff00) (q . 9) (q . (x)) (q . ()))",
+        "(softfork (q . 0x00ffffffffffffffff) (q . 9) (q . (x)) (q . ()))",
+        "(c (softfork (q . 0x4000000000000000) (q . 9) (q . (x)) (q . ())) (softfork (q . 0x4000000000000000) (q . 9) (q . (x)) (q . ())))",
+        "(c (softfork (q . 0x008000000000000000) (q . 9) (q . (x)) (q . ())) (softfork (q . 0x7fffffffffffff00) (q . 9) (q . (x)) (q . ())))",
+        "(c (softfork (q . 0x008000000000000000) (q . 9) (q . (x)) (q . ())) (softfork (q . 0x008000000000000000) (q . 9) (q . (x)) (q . ())))",
     ];
     let sets = [
         ClvmFlags::empty(),
@@ -231,7 +257,7 @@ pub fn run(ctx: &mut Ctx) {
             continue;
         }
         let mut r = ctx.rng(cid);
-        check(ctx, &mut r, &f, *p, *e, *fl);
+        check_with(ctx, &mut r, &f, *p, *e, *fl, true);
     }
     let n = ctx.n(120_000, 20_000_000);
     random_cases!(ctx, n, |r, _i| {
